@@ -42,10 +42,10 @@ CONSTANTS = {
                   PlainBaseSfx=['d', 'AS'], PlainLinkSfx=['E', 'e'],
                   DeepBaseSfx=['d', 'AS'], DeepLinkSfx=['e'], Roles=ALL_ROLES, Phases=ALL_PHASES,
                   RichPhases=['setup'], DeepPhases=['setup'], CdPos=[0, 1, 2], CdForms=['tmp']),
-    'thorough': dict(MaxDepth=3, BaseSfx=['E', 'd', 'de', 'S', 'Se', 'dT', 'AL', 'ALd', 'AS', 'ASd'],
+    'thorough': dict(MaxDepth=3, BaseSfx=['E', 'd', 'de', 'S', 'Se', 'dT', 'AL', 'AS', 'ASd'],
                      LinkSfx=['E', 'e', 'T', 'ed', 'AL', 'AS'],
                      PlainBaseSfx=['d', 'de', 'S', 'AL', 'ASd'], PlainLinkSfx=['E', 'e', 'AS'],
-                     DeepBaseSfx=['d', 'S', 'AS'], DeepLinkSfx=['E', 'e'], Roles=ALL_ROLES, Phases=ALL_PHASES,
+                     DeepBaseSfx=['d', 'AS'], DeepLinkSfx=['E', 'e'], Roles=ALL_ROLES, Phases=ALL_PHASES,
                      RichPhases=['setup', 'assert'], DeepPhases=['setup'], CdPos=[0, 1, 2],
                      CdForms=['tmp', 'sub']),
     # random behaviours beyond the exhaustive bound (no absolute FILE-NAMEs: the deviation is not involved)
@@ -177,27 +177,30 @@ def populate_host(host, dirs, out):
 
 
 def populate_script(sds, out):
-    """sh script run by the first [setup] instruction; the current directory is then the act directory."""
-    lines = ['#!/bin/sh', 'set -e', 'cd ..']
-    made = set()
+    """sh script run by the first [setup] instruction; the current directory is then the act directory.
+    (one mkdir and one chmod process per case: process creation dominates the cost of a case)"""
+    made, mkdirs, writes, execs = set(), [], [], []
     for root, comps, kind in sds:
         rel = '/'.join((root,) + tuple(comps))
         t = tag({'root': root, 'comps': comps})
         if kind == 'p':
-            lines.append('mkdir -p %s' % os.path.dirname(rel))
+            mkdirs.append(os.path.dirname(rel))
         elif kind in ('d', 'D'):
-            lines.append('mkdir -p %s' % rel)
+            mkdirs.append(rel)
             if kind == 'd':
-                lines.append(': > %s/m-%s' % (rel, t))
+                writes.append(': > %s/m-%s' % (rel, t))
                 made.add(rel + '/m-' + t)
         else:
-            lines.append('mkdir -p %s' % os.path.dirname(rel))
-            lines.append("printf '%%s\\n' '#!/bin/sh' 'echo >> %s/ran.txt %s' > %s" % (out, t, rel))
-            lines.append('chmod +x %s' % rel)
+            mkdirs.append(os.path.dirname(rel))
+            writes.append("printf '%%s\\n' '#!/bin/sh' 'echo >> %s/ran.txt %s' > %s" % (out, t, rel))
+            execs.append(rel)
         parts = rel.split('/')
         upto = len(parts) if kind != 'p' else len(parts) - 1
         for j in range(2, upto + 1):
             made.add('/'.join(parts[:j]))
+    lines = ['#!/bin/sh', 'set -e', 'cd ..', 'mkdir -p ' + ' '.join(sorted(set(mkdirs)))] + writes
+    if execs:
+        lines.append('chmod +x ' + ' '.join(execs))
     lines.append(': > %s/populated' % out)
     return '\n'.join(lines) + '\n', made
 
@@ -376,7 +379,11 @@ def matches(task, alt, o):
     elif o['pwd']:
         return 'Machinery: unexpected pwd record'
     if role in ('def', 'existingfile'):
-        if not o['arg'] or o['arg']['text'] != path_string(loc, o):
+        # the rendered value is an absolute path string: the very string (or, should the scratch directory be
+        # reached through a symbolic link, a string that denotes the same location)
+        if not o['arg'] or (o['arg']['text'] != path_string(loc, o)
+                            and not (o['arg']['text'].startswith('/') and '/../' not in o['arg']['text'] + '/'
+                                     and os.path.realpath(o['arg']['text']) == os.path.realpath(path_string(loc, o)))):
             return 'ResolvedWhere: rendered %s, specification %s' % (o['arg'] and o['arg']['text'], t)
     elif o['arg']:
         return 'Machinery: unexpected arg record'
@@ -524,19 +531,27 @@ def negative_controls(ctx, tasks, obs):
 def run(ctx):
     quick = ctx.tier == 'quick'
     consts = CONSTANTS[ctx.tier]
-    # four TLC runs, side by side:
-    # 1. the model: the clauses of the property hold on every case ...
-    # ... and are sharp: with the deviation of known finding D4 switched on, TLC finds the escape
-    # 2. spec -> code: every case, with the prediction of the specification and of the specification + deviation
-    with ThreadPoolExecutor(4) as ex:
-        f_mc = ex.submit(ctx.tlc, 'Paths', cfg(consts), coverage=True, name='mc', workers=8)
+    # five TLC runs, side by side:
+    # 1. (mc) the model: the clauses of the property hold on every case ...
+    #    (mc-with-deviation-D4) ... and are sharp: with the deviation of known finding D4 switched on, TLC finds
+    #    the escape
+    # 2. (export, export-with-deviation-D4) spec -> code: every case, with the prediction of the specification and
+    #    of the specification + deviation
+    # 3. (simulate) beyond the exhaustive bound: random behaviours of the same machine (longer chains, more shapes)
+    with ThreadPoolExecutor(5) as ex:
+        f_sim = ex.submit(ctx.tlc, 'PathsExport',
+                          cfg(CONSTANTS['simulate'], invariants=INVARIANTS + ['Export'], may_reject=False), workers=1,
+                          simulate='num=%d' % (1000 if quick else 10000), depth=40, seed=ctx.seed + 1,
+                          name='simulate', timeout=3000, heap='3g')
+        f_mc = ex.submit(ctx.tlc, 'Paths', cfg(consts), coverage=True, name='mc', workers=8, heap='4g')
         f_dv = ex.submit(ctx.tlc, 'Paths', cfg(consts, [DEVIATION], ['WriteRolesNeverReachHome']), workers=2,
-                         name='mc-with-deviation-D4', count=False, must_hold=False)
+                         name='mc-with-deviation-D4', count=False, must_hold=False, heap='3g')
         f_id = ex.submit(ctx.tlc, 'PathsExport', cfg(consts, invariants=['Export']), workers=1, name='export',
-                         count=False, timeout=3000)
+                         count=False, timeout=3000, heap='3g')
         f_de = ex.submit(ctx.tlc, 'PathsExport', cfg(consts, [DEVIATION], invariants=['Export']), workers=1,
-                         name='export-with-deviation-D4', count=False, timeout=3000)
-        res, dv, ideal, dev = f_mc.result(), f_dv.result(), f_id.result(), f_de.result()
+                         name='export-with-deviation-D4', count=False, timeout=3000, heap='3g')
+        res, dv, ideal, dev, sim = f_mc.result(), f_dv.result(), f_id.result(), f_de.result(), f_sim.result()
+    ctx.cov['checker_cmd'] = res.cmd.replace(res.run_dir, '<scratch>')
     ctx.require_coverage(res, ACTIONS)
     if dv.violated != 'WriteRolesNeverReachHome':
         raise core.MachineryFailure('the model with deviation %s should violate WriteRolesNeverReachHome, got %s'
@@ -548,10 +563,7 @@ def run(ctx):
         raise core.MachineryFailure('export too small: %d cases' % len(tasks))
     obs = check_tasks(ctx, tasks, 'every case of the model')
     negative_controls(ctx, tasks, obs)
-    # 3. beyond the exhaustive bound: random behaviours of the same machine (longer chains, more shapes), TLC judging
-    sim = ctx.tlc('PathsExport', cfg(CONSTANTS['simulate'], invariants=INVARIANTS + ['Export'], may_reject=False), workers=1,
-                  simulate='num=%d' % (1500 if quick else 20000), depth=40, seed=ctx.seed + 1, name='simulate',
-                  timeout=3000)
+    # 3. the random deeper chains
     deep = build_tasks(sim.printed_json('CASE'), None)
     by_key = {t['key']: t for t in deep}
     for c in sim.printed_json('ALT'):      # the rejection the property allows as well (see PathsExport)
